@@ -35,6 +35,12 @@ THEOREMS = [
     "SynKit.Match.mem_allMonos",
     "SynKit.Match.allMonos_nodup",
     "SynKit.SubgraphSearch.comp_complete",
+    "SynKit.SubgraphSearch.search_nil_of_no_mono",
+    "SynKit.SubgraphSearch.prefilter_zero_sound",
+    "SynKit.SubgraphSearch.prefilter_zero_lossless",
+    "SynKit.SubgraphSearch.prefilter_estimate_upper",
+    "SynKit.SubgraphSearch.prefilter_fires_iff",
+    "SynKit.SubgraphSearch.prefilter_sound_or_large",
 ]
 
 NODE_KEYS = [["element"], ["element", "charge"], ["element", "charge"], []]
